@@ -438,6 +438,10 @@ def cases_reject(tier):
             for lin in (None, "eq", "ineq"):
                 for nl in (None, "eq", "ineq"):
                     yield "%s/bounds=%s/lin=%s/nl=%s" % (method, bounds, lin, nl), {"method": method, "bounds": bounds, "lin": lin, "nl": nl}
+                    if (lin or nl or bounds) and method in ("cobyla", "nelder-mead", "cg", "l-bfgs-b"):
+                        # another optimizer plug-in, with methods of the same names that take every kind of constraint, has validated a
+                        # configuration in this process before: the SciPy plug-in's own tables still decide
+                        yield "%s/bounds=%s/lin=%s/nl=%s/after-another-plug-in-validated" % (method, bounds, lin, nl), {"method": method, "bounds": bounds, "lin": lin, "nl": nl, "prior": True}
 
 
 def scn_reject(T, case):
@@ -447,6 +451,9 @@ def scn_reject(T, case):
     grp = lambda k: None if k is None else types.SimpleNamespace(lower_bounds=np.array([0.0]), upper_bounds=np.array([0.0 if k == "eq" else np.inf]))  # noqa: E731
     cfg = types.SimpleNamespace(variables=types.SimpleNamespace(lower_bounds=np.array([0.0 if case["bounds"] else -np.inf]), upper_bounds=np.array([np.inf])),
                                 linear_constraints=grp(case["lin"]), nonlinear_constraints=grp(case["nl"]))
+    if case.get("prior"):
+        everything = {k: set(ALL_METHODS) | {m.upper() for m in ALL_METHODS} for k in ("bounds", "linear:eq", "linear:ineq", "nonlinear:eq", "nonlinear:ineq")}
+        validate(cfg, method, everything, {})
     try:
         validate(cfg, method, cls._supported_constraints, cls._required_constraints)
         accepted = True
